@@ -5,6 +5,8 @@ from rulelib import _rv_operands
 from facts import op_int, op_local, op_place
 import C02
 
+THOROUGH_CFGS = ('min_none', 'min_rten', 'min_onnx')   # reduced-feature builds of the rten crate (thorough tier)
+
 EXPLANATION = (
     "Decided for every impl of Operator (macro-generated ones included), for all inputs: (fixed) when output_types declares "
     "Fixed(Tensor(D)) with a constant D, the set of element types T for which a Tensor<T> -> Value conversion "
